@@ -445,7 +445,7 @@ func run(c Case) vt.Verdict {
 func TestProp(t *testing.T) {
 	vt.Main(t, vt.Spec[Case]{
 		ID:           "C10",
-		Rule:         "fault-sequence generation (a third of the cases directed: crash of a connected node, an outage of 20-150 ms, restart, probes at once): 1-3 nodes, any subset down when the manager is created, a generated sequence of stop / start events, traffic calls of 8 kinds with 150 ms deadlines and sleeps of 1 ms - 2.6 s (so crashes strike with calls pending and during back-off, and an outage can outlast several reconnection attempts), all nodes listening again at the end; manager metadata and per-node metadata function generated (in half of the cases with both, one key is carried by both and both values must arrive); gorums' and grpc's back-off set to 400 or 1200 ms; in a third of the cases the RPC probes carry a 150 ms deadline; in a quarter of the cases a blocking dial (grpc.WithBlock, 300 ms dial timeout). Oracle: (0) creating the configuration succeeds whatever servers are down; (a) repeated RPCs reach every node that listens again within the bound, without recreating manager or configuration, and then calls of 1-3 further generated types (quorum, per-node, async, correctable, stream, multicast, per-node multicast, unicast) reach every node as well (3 attempts each); (b) for the first RPC whose request the restarted server handled, the time from the handler's exit to the call's return must stay below half the back-off (replies otherwise take < 5 ms; a slow reply is confirmed by a second independent run of the case); a probe that the restarted server handled and answered must not fail at the caller (reported if a second independent run loses the reply again); (c) every accepted stream triggered exactly one connect callback whose context carries all general pairs and exactly the per-node pairs of that node's id; non-trivial = some node was restarted or came up after the manager was created",
+		Rule:         "fault-sequence generation (a third of the cases directed: crash of a connected node, an outage of 20-150 ms, restart, probes at once): 1-3 nodes, any subset down when the manager is created, a generated sequence of stop / start events, traffic calls of 8 kinds with 150 ms deadlines and sleeps of 1 ms - 2.6 s (so crashes strike with calls pending and during back-off, and an outage can outlast several reconnection attempts), all nodes listening again at the end; manager metadata and per-node metadata function generated (in half of the cases with both, one key is carried by both and both values must arrive); gorums' and grpc's back-off set to 400 or 1200 ms; in a third of the cases the RPC probes carry a 150 ms deadline; in a quarter of the cases a blocking dial (grpc.WithBlock, 300 ms dial timeout). Oracle: (0) creating the configuration succeeds whatever servers are down; (a) repeated RPCs reach every node that listens again within the bound, without recreating manager or configuration, and then calls of 1-3 further generated types (quorum, per-node, async, correctable, stream, multicast, per-node multicast, unicast) reach every node as well (3 attempts each); (b) for the first RPC whose request the restarted server handled, the time from the handler's exit to the call's return must stay below half the back-off (replies otherwise take < 5 ms; a slow reply is confirmed by a second independent run of the case); a probe that the restarted server handled and answered must not fail at the caller (reported if a second independent run loses the reply again); (c) every accepted stream triggered exactly one connect callback whose context carries all general pairs and exactly the per-node pairs of that node's id; non-trivial = some node was restarted or came up after the manager was created; in half of the directed cases the first call that reaches the restarted node is one-way (Unicast or Multicast, repeated until its server has the message) and the measured two-way probes follow",
 		Gen:          gen,
 		Run:          run,
 		TrackCurrent: true,
